@@ -98,6 +98,9 @@ Eff1(op, c) ==
            IF Free(c, op.n) THEN Acc(AddVar(c, op.n, op.v)) ELSE Rej(c)
       [] op.op = "remove_variable" ->
            IF op.n \in M!VarSet(c) THEN Acc(RemoveVar(c, op.n)) ELSE Rej(c)
+      [] op.op = "remove_variable_keepst" ->   \* remove_variable(n, remove_stoichiometries=False): the reactions keep
+           IF op.n \in M!VarSet(c)               \* addressing the name (the content cannot be evaluated until it is declared again)
+           THEN Acc([c EXCEPT !.vars = DropSeq(@, op.n), !.init = Drop(@, op.n)]) ELSE Rej(c)
       [] op.op = "update_variable" ->
            IF op.n \in M!VarSet(c) THEN Acc([c EXCEPT !.init = Put(@, op.n, op.v)]) ELSE Rej(c)
       [] op.op = "make_variable_static" ->
@@ -151,6 +154,13 @@ Eff1(op, c) ==
                 IN IF /\ \A o \in oset : Free(without, o) /\ o # op.n
                       /\ Cardinality(oset) = Len(outs)
                    THEN Acc([c EXCEPT !.sur = Put(@, op.n, new)]) ELSE Rej(c)
+      [] op.op = "replace_surrogate" ->    \* update_surrogate(n, <another surrogate object>), no further keywords
+           IF op.n \notin DOMAIN c.sur THEN Rej(c)
+           ELSE LET without == [c EXCEPT !.sur = Drop(@, op.n)]
+                    oset == M!SeqRange(op.sur.outs)
+                IN IF /\ \A o \in oset : Free(without, o) /\ o # op.n
+                      /\ Cardinality(oset) = Len(op.sur.outs)
+                   THEN Acc([c EXCEPT !.sur = Put(@, op.n, op.sur)]) ELSE Rej(c)
       [] op.op = "remove_surrogate" ->
            IF op.n \in DOMAIN c.sur THEN Acc([c EXCEPT !.sur = Drop(@, op.n)]) ELSE Rej(c)
       [] op.op = "add_data" ->
@@ -278,6 +288,10 @@ StMenu(cc) ==
     \cup {(v :> [k |-> "calc", fn |-> "neg", args |-> <<v>>]) : v \in VarsOf(cc)}       \* state-dependent
     \cup {(v :> [k |-> "calc", fn |-> "inc", args |-> <<"time">>]) : v \in VarsOf(cc)}  \* time-dependent
 
+\* a stoichiometry may address a name that is not (yet, or no longer) a variable: the library accepts the
+\* declaration and cannot evaluate the model until the variable exists
+DangleMenu(cc) == {(x :> Num(1)) : x \in Names \ VarsOf(cc)}
+
 SurMenu(cc) ==
     LET W == VarsOf(cc) IN
     {[fns |-> <<"inc", "dbl">>, args |-> <<a>>, outs |-> o, st |-> Empty] :
@@ -285,7 +299,17 @@ SurMenu(cc) ==
     \cup {[fns |-> <<"inc", "dbl">>, args |-> <<a>>, outs |-> <<"o1", "o2">>, st |-> ("o1" :> (v :> Num(1)))] :
         a \in NamesT, v \in W}
 
+\* the variable-only alphabet (OpSet = "vars"): deep histories around declared / removed / dangling variables
+VarOps(cc) ==
+    UNION {
+      {[op |-> "add_variable", n |-> n, v |-> v] : v \in {Num(5), IAv("inc", <<Other(n)>>)}}
+      \cup {[op |-> "remove_variable", n |-> n], [op |-> "remove_variable_keepst", n |-> n],
+            [op |-> "update_variable", n |-> n, v |-> Num(3)]}
+      \cup {[op |-> "make_variable_static", n |-> n, iv |-> iv] : iv \in {None, Num(4)}}
+      : n \in Names}
+
 SingularOps(cc) ==
+    IF OpSet = "vars" THEN VarOps(cc) ELSE
     UNION {
       {[op |-> "add_parameter", n |-> n, v |-> v] : v \in ValueMenu(n)}
       \cup {[op |-> "remove_parameter", n |-> n]}
@@ -296,7 +320,7 @@ SingularOps(cc) ==
                iv \in {None, Num(4), Num(0)},
                st \in {Empty} \cup {(r :> 2) : r \in DOMAIN cc.rxn \cup M!SurFluxes(cc) \cup {"nosuch"}}}
       \cup {[op |-> "add_variable", n |-> n, v |-> v] : v \in ValueMenu(n)}
-      \cup {[op |-> "remove_variable", n |-> n]}
+      \cup {[op |-> "remove_variable", n |-> n], [op |-> "remove_variable_keepst", n |-> n]}
       \cup {[op |-> "update_variable", n |-> n, v |-> v] : v \in ValueMenu(n)}
       \cup {[op |-> "make_variable_static", n |-> n, iv |-> iv] : iv \in {None, Num(4), Num(0)}}
       \cup {[op |-> "add_derived", n |-> n, call |-> cl] : cl \in CallMenu(n)}
@@ -304,6 +328,8 @@ SingularOps(cc) ==
       \cup {[op |-> "update_derived", n |-> n, call |-> cl, mode |-> md] : cl \in PartialMenu(cc.der, n), md \in {"fn", "args"}}
       \cup {[op |-> "remove_derived", n |-> n]}
       \cup {[op |-> "add_reaction", n |-> n, call |-> cl, st |-> st] : cl \in CallMenu(n), st \in StMenu(cc)}
+      \cup {[op |-> "add_reaction", n |-> n, call |-> cl, st |-> st, dangle |-> TRUE] :
+               cl \in {Call("two", <<>>), Call("inc", <<Other(n)>>)}, st \in DangleMenu(cc)}
       \cup {[op |-> "update_reaction", n |-> n, call |-> cl, mode |-> "both", keepst |-> TRUE, st |-> Empty] :
                cl \in {NoCall, Call("two", <<>>), Call("inc", <<Other(n)>>)}}
       \cup {[op |-> "update_reaction", n |-> n, call |-> cl, mode |-> md, keepst |-> TRUE, st |-> Empty] :
@@ -323,6 +349,10 @@ SingularOps(cc) ==
               \cup {[op |-> "update_surrogate", n |-> n, keepargs |-> TRUE, args |-> <<"time">>,
                      keepouts |-> TRUE, outs |-> <<"o1", "o2">>, keepst |-> FALSE, st |-> st] :
                        st \in {Empty} \cup {("o1" :> (v :> Num(0 - 3))) : v \in VarsOf(cc)}}
+              \cup {[op |-> "replace_surrogate", n |-> n, sur |-> sr] :
+                       sr \in {[fns |-> <<"dbl", "inc">>, args |-> <<a>>, outs |-> o, st |-> Empty] :
+                                 a \in {First, "time"},
+                                 o \in {<<"o1", "o2">>, <<"o2", "o1">>, <<"o1", "p1">>, <<"o1", First>>, <<"p1", "p2">>}}}
               \cup {[op |-> "remove_surrogate", n |-> n]}
               \cup {[op |-> "add_data", n |-> n, d |-> 13]}
               \cup {[op |-> "update_data", n |-> n, d |-> 17]}
@@ -332,6 +362,7 @@ SingularOps(cc) ==
 
 PluralOps(cc) ==
     LET a == First  b == Other(First) IN
+    IF OpSet = "vars" THEN {} ELSE
     {o \in {[op |-> "plural", name |-> "add_parameters",
       ops |-> <<[op |-> "add_parameter", n |-> a, v |-> Num(5)], [op |-> "add_parameter", n |-> b, v |-> Num(3)]>>],
      [op |-> "plural", name |-> "update_parameters",
@@ -381,6 +412,8 @@ SeedContent(s) ==
          [] s = "dataia" -> [base EXCEPT !.data = (cN :> 13),
                                          !.pars = (b :> Num(7)) @@ ("d" :> IAv("dsum", <<cN>>)),
                                          !.der = ("e" :> Call("inc", <<"d">>))]
+         [] s = "dangle" -> [base EXCEPT !.rxn = ("r" :> [fn |-> "mul", args |-> <<a, b>>,      \* c is addressed, not declared
+                                                           st |-> (a :> Num(0 - 1)) @@ (cN :> Num(1))])]
          [] s = "ro"    -> [base EXCEPT !.ro = (cN :> Call("inc", <<a>>))]
 
 Init ==
@@ -409,7 +442,10 @@ Done == fin
 (* Properties of the contract itself (TLC)                                 *)
 (***************************************************************************)
 \* every stoichiometry addresses a variable and surrogate fluxes are outputs, whatever the history
-StoichClosed == StoichTargets(c) \subseteq M!VarSet(c)
+\* ... unless the caller asked for it (a removal keeping the stoichiometries, a reaction declared before its variable)
+Tame == /\ seed # "dangle"
+        /\ \A j \in DOMAIN hist : hist[j].op # "remove_variable_keepst" /\ "dangle" \notin DOMAIN hist[j]
+StoichClosed == Tame => StoichTargets(c) \subseteq M!VarSet(c)
 \* the name space is exactly the union of the containers, no name in two of them
 OneNameSpace ==
     LET sets == <<DOMAIN c.pars, M!VarSet(c), DOMAIN c.der, DOMAIN c.rxn, DOMAIN c.ro, DOMAIN c.data,
@@ -421,7 +457,7 @@ OneNameSpace ==
 RejectedUnchanged ==
     [][\A op \in Ops(c) : LET r == Eff(op, c) IN
           /\ (~r.ok /\ op.op # "plural") => r.c = c
-          /\ (r.ok /\ op.op \in {"remove_parameter", "remove_variable", "remove_derived", "remove_reaction",
+          /\ (r.ok /\ op.op \in {"remove_parameter", "remove_variable", "remove_variable_keepst", "remove_derived", "remove_reaction",
                                  "remove_readout", "remove_data", "remove_surrogate"}) => Free(r.c, op.n)]_vars
 
 \* the history with the specification's predictions: hist holds the ops only (cheap successors),
